@@ -15,7 +15,7 @@ open Py Xs.Bind Xs.Dict Proofs.C04 Proofs.C04Witness
 
 /-- **dict_rt**: for both dictionary factories, every parser configuration and every
 environment: an instance in the fragment `valOKj` (typed str/int/bool, model-class, list and
-wrapped-list fields, `xs:anyAttribute` maps, wildcard fields — single, list, mixed — holding generic
+wrapped-list fields, tokens fields (`xs:list`), `xs:anyAttribute` maps, wildcard fields — single, list, mixed — holding generic
 `AnyElement`s of any nesting, primitives and `None`; `None` only where the field default is `None`; nested instances
 unambiguous in their candidate pool) encodes to a JSON-native dictionary, and decoding that
 dictionary into the same class has exactly one admissible result: the instance itself. -/
@@ -38,7 +38,7 @@ theorem dict_rt_partial (e : BEnv) (Γ : Ctx) (fac : Factory) (cfg : ParserConfi
   dict_rt e Γ fac cfg n c v h
 
 example : ctxOKj okwCtx = true := by rfl
-/-- an attributes map and mixed wildcard content (nested generic elements, text, a number, `None`,
+/-- an attributes map, two tokens fields and mixed wildcard content (nested generic elements, text, a number, `None`,
 an `AnyElement` without qname) are inside the fragment, for both factories -/
 example : valOKj benv0 genwCtx .dict 4 "G".toList genw_value = true
     ∧ valOKj benv0 genwCtx .filterNone 4 "G".toList genw_value = true
